@@ -28,6 +28,7 @@ import ExoModel.Lemmas.ConfigBind
 import ExoModel.Lemmas.ConfigCall
 import ExoModel.Lemmas.ConfigBindStmt
 import ExoModel.Lemmas.ConfigAvoid
+import ExoModel.Lemmas.ConfigEvalOk
 
 set_option linter.unusedSectionVars false
 set_option linter.unusedVariables false
@@ -382,21 +383,20 @@ example : EquivOn (fun V σ => ∃ v, lookupSym bS σ.env = some v) (single ("c"
 /-! ### 5. bind_config -/
 
 /-- **bind_config.**  `s[e] ↦ c.f = e ; s[c.f]` (the model `bindStmt` of `DoBindConfig`) anywhere in
-    a procedure.  Side conditions: `s` does not read the fields of `K ∋ (c,f)`; `e` can be evaluated
-    wherever `s` runs (it occurs in `s`); the value of `e` does not depend on `c.f` (so the read
-    right after the write yields `e`'s value — for the plain variable reads `bind_config` accepts
-    this is `stable_read`, see `bind_config_var`); context and tail as for `delete_config`. -/
+    a procedure.  Side conditions: `s` does not read the fields of `K ∋ (c,f)`; the value of `e`
+    does not depend on `c.f` (so the read right after the write yields `e`'s value — for the plain
+    variable reads `bind_config` accepts this is `stable_read`, see `bind_config_var`); context
+    and tail as for `delete_config`.  That the inserted write cannot fail where `s` ran is proved
+    (`bindStmt_safe`: the occurrence is evaluated by `s` itself), not assumed. -/
 theorem bind_config {K K' : FieldSet} (C : Ctx) {s : Stmt} {slot : Slot} {path : EPath}
     {c f : String} {d : Bool} {e : Expr} {ws : List Stmt} (tail : List Stmt)
     (hb : bindStmt s slot path c f d = some (e, ws)) (hK : K (c, f))
-    (hself : Insensitive K [s])
-    (hsafe : ∀ (V : Type) [DataAlg V] (ext : String → List V → V) (σ o : State V),
-      execS ext s σ = .ok o → ∃ σ2, execS ext (.writecfg c f e d) σ = .ok σ2)
-    (hst : StableUnder (c, f) e)
+    (hself : Insensitive K [s]) (hst : StableUnder (c, f) e)
     (hC : CtxInsens0 agreeFam K C) (htail : Overwrites K K' tail)
     (nm : String) (args : List FnArg) (preds : List Expr) :
     EquivExact K' (.mk nm args preds (C.fill [s] ++ tail)) (.mk nm args preds (C.fill ws ++ tail)) := by
-  have hs : Sim agreeFam K K [s] ws := bindStmt_sim agreeFam K hb hK hself hsafe hst
+  have hs : Sim agreeFam K K [s] ws :=
+    bindStmt_sim agreeFam K hb hK hself (fun V _ ext σ o h => bindStmt_safe ext hb σ o h) hst
   exact equivExact_of_hole_sim C (sim0_of_sim hs) (fun _ => hs) hC htail nm args preds
 
 /-- the case the API admits: the bound expression is a variable read -/
@@ -404,13 +404,11 @@ theorem bind_config_var {K K' : FieldSet} (C : Ctx) {s : Stmt} {slot : Slot} {pa
     {c f : String} {d : Bool} {x : Sym} {ws : List Stmt} (tail : List Stmt)
     (hb : bindStmt s slot path c f d = some (.read x [], ws)) (hK : K (c, f))
     (hself : Insensitive K [s])
-    (hsafe : ∀ (V : Type) [DataAlg V] (ext : String → List V → V) (σ o : State V),
-      execS ext s σ = .ok o → ∃ σ2, execS ext (.writecfg c f (.read x []) d) σ = .ok σ2)
     (hC : CtxInsens0 agreeFam K C) (htail : Overwrites K K' tail)
     (nm : String) (args : List FnArg) (preds : List Expr) :
     Equiv K' (.mk nm args preds (C.fill [s] ++ tail)) (.mk nm args preds (C.fill ws ++ tail)) :=
   equiv_of_equivExact
-    (bind_config C tail hb hK hself hsafe (stable_read (c, f) x) hC htail nm args preds)
+    (bind_config C tail hb hK hself (stable_read (c, f) x) hC htail nm args preds)
 
 example : Equiv (single ("c", "f"))
     (.mk "p" [] [] (C1.fill [sIf] ++ [.pass]))
@@ -420,15 +418,22 @@ example : Equiv (single ("c", "f"))
       some (.read bS [], [.writecfg "c" "f" (.read bS []) false,
                           .ite (.readcfg "c" "f") [.assign xS [] one] []]) := by
     simp [bindStmt, sIf, exprAt, subAt, occMode, setExpr, replaceAt]
-  refine bind_config_var (K := single ("c", "f")) C1 [.pass] hb rfl
-    (insensitive_of_no_read (by simp [sIf]; avoid)) ?_ ex_C1_insens (insensitive_of_no_read (by avoid)) _ _ _
-  intro V _ ext σ o h
-  simp only [sIf, execS, bind, Except.bind] at h
-  split at h
-  · cases h
-  · rename_i v hv
-    exact ⟨{ σ with cfg := setCfg ("c", "f") (.ctrl v) σ.cfg },
-      by simp [execS, hv, bind, Except.bind, pure, Except.pure]⟩
+  exact bind_config_var (K := single ("c", "f")) C1 [.pass] hb rfl
+    (insensitive_of_no_read (by simp [sIf]; avoid)) ex_C1_insens (insensitive_of_no_read (by avoid)) _ _ _
+
+/-- data-valued binding inside an arithmetic expression, below a loop -/
+example : Equiv (single ("c", "s"))
+    (.mk "p" [] [] ((Ctx.loop iS (.lit (.int 0)) (.lit (.int 3)) false .hole).fill [sAdd] ++ []))
+    (.mk "p" [] [] ((Ctx.loop iS (.lit (.int 0)) (.lit (.int 3)) false .hole).fill
+       [.writecfg "c" "s" (.read aS []) true, .assign xS [] (.binop .add (.readcfg "c" "s") one)] ++ [])) := by
+  have hb : bindStmt sAdd .rhs [0] "c" "s" true =
+      some (.read aS [], [.writecfg "c" "s" (.read aS []) true,
+                          .assign xS [] (.binop .add (.readcfg "c" "s") one)]) := by
+    simp [bindStmt, sAdd, exprAt, subAt, occMode, setExpr, replaceAt]
+  exact bind_config_var (K := single ("c", "s"))
+    (Ctx.loop iS (.lit (.int 0)) (.lit (.int 3)) false .hole) [] hb rfl
+    (insensitive_of_no_read (by simp [sAdd]; avoid)) (by simp [CtxInsens0, CtxInsens])
+    (sim_refl_none _ _) _ _ _
 
 example : bindStmt sIf .cond [] "c" "f" false =
     some (.read bS [], [.writecfg "c" "f" (.read bS []) false,
